@@ -723,9 +723,61 @@ func chainUniverses(rng *rand.Rand, perDepth int) []*universe {
 
 var preReadCalls atomic.Int64
 
+// fakeClient is the stateful-but-linearizable stand-in for the resolve client the real strategies share between
+// attempts: every requirement of every attempt's answer is looked up through ONE real datasource.RequestCache (single
+// flight, fetches yield and sleep so that lookups of several attempts overlap), plus a mutex-guarded call log. It answers
+// as a function of its arguments — which is exactly the assumption behind `patchFn` in the Lean model — so the result of
+// ComputePatches must still be the schedule-free one; a cache that mixed up keys or handed out a stale/zero value would show.
+type fakeClient struct {
+	versions *datasource.RequestCache[string, string]
+	fetches  atomic.Int64
+	lookups  atomic.Int64
+	mu       sync.Mutex
+	log      []string
+}
+
+func newFakeClient() *fakeClient {
+	return &fakeClient{versions: datasource.NewRequestCache[string, string]()}
+}
+
+func (c *fakeClient) resolve(name, version string) string {
+	c.lookups.Add(1)
+	c.mu.Lock()
+	c.log = append(c.log, name)
+	c.mu.Unlock()
+	v, err := c.versions.Get(name+"@"+version, func() (string, error) {
+		n := c.fetches.Add(1)
+		runtime.Gosched()
+		if n%2 == 0 {
+			time.Sleep(40 * time.Microsecond)
+		}
+		return version, nil
+	})
+	if err != nil {
+		return "fetch-error"
+	}
+	return v
+}
+
+func (c *fakeClient) answer(o outcome) outcome {
+	if o.Err != 0 {
+		return o
+	}
+	rs := make([]req, len(o.Reqs))
+	for i, r := range o.Reqs {
+		rs[i] = req{Name: r.Name, Version: c.resolve(r.Name, r.Version)}
+	}
+	o.Reqs = rs
+	return o
+}
+
 // runFree: the real ComputePatches with an UNGATED table function under the Go scheduler, GOMAXPROCS gmp, and a
 // deterministic pattern of Gosched / short sleeps at the entry of every attempt (before it reads its ids).
-func runFree(u *universe, gmp, rep int) string {
+func runFree(u *universe, gmp, rep int, stateful bool) string {
+	var cl *fakeClient
+	if stateful {
+		cl = newFakeClient()
+	}
 	old := runtime.GOMAXPROCS(gmp)
 	defer runtime.GOMAXPROCS(old)
 	preReadCalls.Store(0)
@@ -746,23 +798,38 @@ func runFree(u *universe, gmp, rep int) string {
 	}
 	defer func() { guidedremediation.VerifC16PreRead = nil }()
 	return hx.Guard(func() string {
-		ps, err := guidedremediation.VerifC16ComputePatches(u.reqs, u.vulns, u.grouped, func(ids []string) outcome { return u.get(ids) })
+		ps, err := guidedremediation.VerifC16ComputePatches(u.reqs, u.vulns, u.grouped, func(ids []string) outcome {
+			if cl != nil {
+				return cl.answer(u.get(ids))
+			}
+			return u.get(ids)
+		})
 		if err != nil {
 			return "out=error"
+		}
+		if cl != nil {
+			return fmt.Sprintf("out=%s client=stateful lookups=%d fetches=%d", showPatches(ps), cl.lookups.Load(), cl.fetches.Load())
 		}
 		return "out=" + showPatches(ps)
 	})
 }
 
-func parseFreeCase(l string) (*universe, int, int) {
+func parseFreeCase(l string) (*universe, int, int, bool) {
 	t := strings.Split(l, " ")
 	u, _ := parsePatchesCase(strings.Join(append(append([]string{"patches"}, t[1:5]...), "-"), " "))
 	var g, r int
-	fmt.Sscanf(t[5], "g%dr%d", &g, &r)
+	fmt.Sscanf(strings.TrimSuffix(t[5], "s"), "g%dr%d", &g, &r)
 	if g < 1 {
 		g = 1
 	}
-	return u, g, r
+	return u, g, r, strings.HasSuffix(t[5], "s")
+}
+
+func freeToken(g, r int, stateful bool) string {
+	if stateful {
+		return fmt.Sprintf("g%dr%ds", g, r)
+	}
+	return fmt.Sprintf("g%dr%d", g, r)
 }
 
 // freeStream runs sequentially (the perturbation hook is global and a race report must be attributable to one case):
@@ -772,9 +839,10 @@ func freeStream(us []*universe, reps int, out *hx.Out) {
 		head := "pfree" + strings.TrimPrefix(u.head(), "patches")
 		for _, g := range []int{1, 16} {
 			for r := 0; r < reps; r++ {
-				c := fmt.Sprintf("%s g%dr%d", head, g, r)
+				// odd repetitions: the attempts answer through the shared stateful client
+				c := head + " " + freeToken(g, r, r%2 == 1)
 				fmt.Fprintln(os.Stderr, "@case "+c)
-				out.Emit(c, runFree(u, g, r))
+				out.Emit(c, runFree(u, g, r, r%2 == 1))
 				out.Flush()
 			}
 		}
@@ -1117,10 +1185,46 @@ func scanOnce(seed int64) {
 		hx.B(el > 2100*time.Millisecond), hx.B(ok))
 }
 
+// cacheStress: Get / GetMap / SetMap of ONE real RequestCache from several goroutines with no gates at all — nothing is
+// compared except provenance of the returned values; the point is the race detector (and Go's own "concurrent map
+// writes" check) seeing unsynchronised access to the cache's maps. Prints "cstress <seed>\t<summary>".
+func cacheStress(seed int64) string {
+	rng := rand.New(rand.NewSource(seed))
+	bad := atomic.Int64{}
+	for it := 0; it < 150; it++ {
+		rc := datasource.NewRequestCache[int, int]()
+		var wg sync.WaitGroup
+		nk := 1 + rng.Intn(2)
+		for g := 0; g < 4; g++ {
+			k, fail, v := rng.Intn(nk), rng.Intn(4) == 0, 100+g
+			wg.Add(1)
+			go func() {
+				defer wg.Done()
+				got, err := rc.Get(k, func() (int, error) {
+					runtime.Gosched()
+					if fail {
+						return 0, errFetch
+					}
+					return v, nil
+				})
+				if err == nil && (got < 100 || got > 103) && got != 7 && got != 8 {
+					bad.Add(1)
+				}
+			}()
+		}
+		wg.Add(2)
+		m := setMaps[rng.Intn(len(setMaps))]
+		go func() { defer wg.Done(); runtime.Gosched(); rc.SetMap(m) }()
+		go func() { defer wg.Done(); _ = rc.GetMap() }()
+		wg.Wait()
+	}
+	return fmt.Sprintf("iterations=150 foreign_values=%d", bad.Load())
+}
+
 // ------------------------------------------------------------------ main
 
 func main() {
-	mode := flag.String("mode", "corr", "corr|free|scan")
+	mode := flag.String("mode", "corr", "corr|free|scan|cstress")
 	site := flag.String("site", "legacy", "scan: dopen|readdir|gitignore|stat|fopen|extract, or legacy (walkcase.MemFS, every Open slow)")
 	smode := flag.String("scanmode", "tree", "scan: tree|paths")
 	o := hx.Parse()
@@ -1130,6 +1234,11 @@ func main() {
 		} else {
 			scanSite(o.Seed, *site, *smode)
 		}
+		return
+	}
+	if *mode == "cstress" {
+		fmt.Fprintf(os.Stderr, "@case cstress %d\n", o.Seed)
+		fmt.Printf("cstress %d\t%s\n", o.Seed, cacheStress(o.Seed))
 		return
 	}
 	checkPools()
@@ -1158,16 +1267,16 @@ func main() {
 			case strings.HasPrefix(l, "pfree "):
 				// a free run is not deterministic (that is its point): the case as given, then 7 more runs alternating
 				// GOMAXPROCS 1/16 with other perturbation patterns, each reported under its own g/r token
-				u, g, r := parseFreeCase(l)
+				u, g, r, sf := parseFreeCase(l)
 				head := l[:strings.LastIndex(l, " ")]
 				for k := 0; k < 8; k++ {
-					gk, rk := g, r
+					gk, rk, sk := g, r, sf
 					if k > 0 {
-						gk, rk = []int{16, 1}[k%2], r+k
+						gk, rk, sk = []int{16, 1}[k%2], r+k, (r+k)%2 == 1
 					}
-					c := fmt.Sprintf("%s g%dr%d", head, gk, rk)
+					c := head + " " + freeToken(gk, rk, sk)
 					fmt.Fprintln(os.Stderr, "@case "+c)
-					emit(c, runFree(u, gk, rk))
+					emit(c, runFree(u, gk, rk, sk))
 					out.Flush()
 				}
 			case strings.HasPrefix(l, "cache "):
